@@ -103,6 +103,10 @@ def layouts(ctx):
     L.append((32 * 2 * K, [(2 * i * K, (2 * i + 1) * K) for i in range(32)]))    # exactly one full page
     L.append((33 * 2 * K, [(2 * i * K, (2 * i + 1) * K) for i in range(33)]))    # page + 1
     L.append((64 * 2 * K, [(2 * i * K, (2 * i + 1) * K) for i in range(64)]))    # exactly two full pages
+    G = 1 << 30                                                                                     # data beyond 4 GiB: offsets need 64 bits
+    L.append((4 * G + 8 * (1 << 20) + 123, [(0, K), (G, G + K), (4 * G + 4 * (1 << 20), 4 * G + 4 * (1 << 20) + K), (4 * G + 8 * (1 << 20), 4 * G + 8 * (1 << 20) + 123)]))
+    if not ctx.quick:
+        L.append((9 * G + 5, [(3 * G + K, 3 * G + 2 * K), (8 * G, 8 * G + K), (9 * G, 9 * G + 5)]))
     for nx in ((2048, 2100) if ctx.quick else (2047, 2048, 2049, 2100, 4100, 6500)):              # tens of FIEMAP pages
         L.append((nx * 2 * K + 100, [(2 * i * K, (2 * i + 1) * K) for i in range(nx)] + [(nx * 2 * K, nx * 2 * K + 100)]))
     for _ in range(12 if ctx.quick else 120):
@@ -264,7 +268,7 @@ def run(ctx):
                     if nz is not None:
                         ctx.violation(f'seek-fault-{nth}-{en}.json', dict(kind='next_sparse_segments', plan=f'fail lseek {nth} {en}', segments=segs, impl=a),
                                       f'libfs hides data: the {nth}th lseek failed with {en} and next_sparse_segments still answered {a[:80]!r}: byte {nz} is data outside every reported range')
-    ctx.cov['rule'] = ('(files: + layouts of 2048..2100 (thorough 6500) extents; + every lseek of a segment search failing with EINVAL/EIO) merge: exhaustive well-formed lists over a small offset universe + random lists (long, shared flags, malformed, near u64::MAX); '
+    ctx.cov['rule'] = ('(files: + layouts of 2048..2100 (thorough 6500) extents; + data beyond 4 GiB; + every lseek of a segment search failing with EINVAL/EIO) merge: exhaustive well-formed lists over a small offset universe + random lists (long, shared flags, malformed, near u64::MAX); '
                        'files: fixed boundary layouts (0, 1, 32, 33, 64, 70 extents; data at start/end; odd sizes) + random layouts on ext4. '
                        'distinct = distinct input; non-trivial = at least two extents (merge) / at least one data segment (files)')
 
